@@ -141,6 +141,33 @@ package heur
 //@   loop 1: invariant stm <= 1 && res <= 1 && 1 <= start[0] && start[0] <= 3 && 1 <= start[1] && start[1] <= 3 && occ & ^pre(occ) == 0
 //@   loop 1: modifies start
 //@
+//@ # ---- C18 (equivalence): the answer is exactly "the exchange value of m is at least the threshold" in
+//@ # ---- the capture-sequence game of spec/see.smt2.  seeY is defined by recursion on the remaining
+//@ # ---- occupancy; axiom seeUnfold is that definition (one unfolding per loop iteration is all the
+//@ # ---- proof needs).  Verified as a second contract (`view equiv`) against the same body.
+//@ import geom.smt2 rules.smt2 see.smt2
+//@ axiom seeUnfold(p $Pos, occ BitBoard, c Color, t Square)
+//@   concl seeUnfoldOK(p, occ, uint8(c), uint8(t))
+//@
+//@ define seeAnswer(b, m, threshold) = seeSpec(pos(b), uint16(m), int16(threshold))
+//@ define seeYnow(b, occ, stm, to) = seeY(pos(b), occ, uint8(stm ^ 1), uint8(to))
+//@ func SEE view equiv
+//@   props C18
+//@   requires repOK(b) && validPos(pos(b)) && pseudo(pos(b), uint16(m)) && -4000 <= threshold && threshold <= 4000
+//@   use board.repInstance(b, m.From())
+//@   use board.repInstance(b, b.CaptureSq(m))
+//@   ensures [equiv] result == seeAnswer(b, m, threshold)
+//@   modifies nothing
+//@   use seeUnfold(pos(b), occ, stm ^ 1, to) at loop1
+//@   loop 1: invariant stm <= 1 && 0 <= res && res <= 1 && 1 <= start[0] && start[0] <= 3 && 1 <= start[1] && start[1] <= 3 && occ & ^pre(occ) == 0
+//@   # the incrementally maintained attacker set is the set of attackers under the remaining occupancy
+//@   loop 1: invariant attackers & occ == seeAtt(pos(b), occ, uint8(to))
+//@   # progress markers: a side whose marker passed pawns (knights) has no pawn (knight) attacker left
+//@   loop 1: invariant all(c, 0, 1, implies(start[c] >= 2, attackers & occ & b.Colors[c] & b.Pieces[1] == 0) && implies(start[c] >= 3, attackers & occ & b.Colors[c] & b.Pieces[2] == 0))
+//@   # the threshold form: with res == 1 the answer is "the opponent keeps at least swap", with res == 0 "at most swap"
+//@   loop 1: invariant ite(res == 1, 1 <= swap && swap <= 10800 && seeAnswer(b, m, threshold) == (seeYnow(b, occ, stm, to) >= swap), 0 <= swap && swap <= 10800 && seeAnswer(b, m, threshold) == (seeYnow(b, occ, stm, to) <= swap))
+//@   loop 1: modifies start
+//@
 //@ # ---- `picker` views (C16): only the bands of the ranks matter to the picker.  Both bands are
 //@ # ---- proved in the main contracts; their structural preconditions (piece codes, square ranges,
 //@ # ---- every history cell within +-1024) are the representation invariant of the board, the
